@@ -11,6 +11,7 @@
 #include <cstring>
 #include <string>
 #include <set>
+#include <tuple>
 #include "cbor.h"
 #include "common/harness.hpp"
 #include "alloc/valloc.hpp"
@@ -280,7 +281,17 @@ static Result judge_C11(const Case& c) {
     std::set<const void*> sn, cn; std::vector<std::pair<const uint8_t*, const uint8_t*>> sr, cr;
     collect_ranges(o, sn, sr); collect_ranges(oc, cn, cr);
     if (cn.size() != oc.nodes.size()) return fail("a node appears twice in the copy (shared sub-item was not unshared)");
-    for (auto& a : sr) for (auto& b : cr) if (a.first < b.second && b.first < a.second) return fail("copy and source share a node or a buffer");
+    // overlap between any source range and any copy range: one sweep over the ranges sorted by start
+    std::vector<std::tuple<const uint8_t*, const uint8_t*, int>> all;
+    for (auto& a : sr) if (a.first < a.second) all.emplace_back(a.first, a.second, 0);
+    for (auto& b : cr) if (b.first < b.second) all.emplace_back(b.first, b.second, 1);
+    std::sort(all.begin(), all.end());
+    const uint8_t* maxend[2] = {nullptr, nullptr};
+    for (auto& x : all) {
+      int side = std::get<2>(x);
+      if (maxend[1 - side] && std::get<0>(x) < maxend[1 - side]) return fail("copy and source share a node or a buffer");
+      if (!maxend[side] || std::get<1>(x) > maxend[side]) maxend[side] = std::get<1>(x);
+    }
   }
   // a copy that fails for lack of memory must leave the source (and everything else) exactly as it was
   if ((c.aux[0] & 1) == 0 && copy_requests <= 48) {
